@@ -417,6 +417,64 @@ def r_frame(cg, P, rep):
             rep.ob('R04.5', key, ok, 'frame layout: %s' % msg, where=where, facts={'homes': homes, 'stack_size': stack_size})
 
 
+def r_alloca(cg, rep, rule='R04.7'):
+    """alloca lowering: size rounded up to 16, the temporaries between %rsp and the alloca bottom are moved down by exactly that
+    amount with a loop over the full 64-bit byte count, %rsp and the bottom pointer move by the same amount, the block address is returned"""
+    from ..chibi import Trace, linearise
+    from ..x86 import Machine, norm_bin
+    fnn = 'builtin_alloca'
+    if fnn not in cg.cu.functions:
+        rep.undecided(rule, '%s:%s' % (U, fnn), 'builtin_alloca vanished'); return
+    where = '%s:%d' % (U, cg.cu.fn(fnn).line)
+    it = cg.interp()
+
+    def mk(ctx):
+        ab = Obj('Obj', lazy=True, label='ab'); ab.fields['offset'] = Sym('aboff', 'int')
+        fn = Obj('Obj', lazy=True, label='current_fn'); fn.fields['alloca_bottom'] = ab
+        ctx.globals['current_fn'] = fn
+        return []
+    res = [(c, o) for c, o in it.explore(fnn, mk) if o[0] == 'ret']
+    if len(res) != 1:
+        rep.undecided(rule, '%s:%s' % (U, fnn), '%d returning paths' % len(res), where=where); return
+    tr = Trace(res[0][0])
+    nodes = linearise(tr)
+    try:
+        finals = Machine(raw_rsp=True).run(nodes, lambda s: None, lambda s, n: None, max_paths=16)
+    except Unknown as e:
+        rep.undecided(rule, '%s:%s' % (U, fnn), 'emitted code not interpretable: %s' % e, where=where); return
+    facts = {'trace': tr.text()}
+    RSP0 = ('init', 'rsp'); ARG = ('init', 'rdi')
+    BOT = ('mem', 64, ('addr', ('init', 'rbp'), '{aboff}'))
+    size_t = ext('zx', 32, 64, norm_bin('and', 32, lo(32, norm_bin('add', 64, ARG, C(15))), C(0xfffffff0)))
+    count0 = ('bin', 'sub', 64, BOT, RSP0)
+    # paths: 0 iterations, 1 iteration, (2 iterations)
+    by_iter = {}
+    for s in finals:
+        n = sum(1 for e in s.events if e[0] == 'branch' and not e[2])
+        by_iter[n] = s
+    rep.ob(rule, '%s:%s:loop-has-exit-and-body' % (U, fnn), 0 in by_iter and 1 in by_iter, 'the relocation loop does not have both a zero-iteration and a one-iteration path (%r)' % sorted(by_iter), where=where, facts=facts)
+    if 0 not in by_iter or 1 not in by_iter:
+        return
+    s0, s1 = by_iter[0], by_iter[1]
+    # exit condition: full-width zero test of the remaining count
+    c0 = canon([e for e in s0.events if e[0] == 'branch'][0][1])
+    ok = c0 in (canon(('cmp', 'eq', 64, count0, C(0))),)
+    rep.ob(rule, '%s:%s:loop-counts-all-bytes' % (U, fnn), ok,
+           'the loop that moves the pending temporaries stops when %r holds; it must run until the full 64-bit byte count (alloca bottom - %%rsp) is exhausted: with a narrower test, 256 or more bytes of temporaries are left behind' % (c0,), where=where, facts=facts)
+    br = [e for e in s1.events if e[0] == 'branch']
+    c1 = canon(br[1][1]) if len(br) > 1 else None
+    rep.ob(rule, '%s:%s:count-decrements-by-one' % (U, fnn), c1 == canon(('cmp', 'eq', 64, norm_bin('sub', 64, count0, C(1)), C(0))), 'after one byte the remaining count is tested as %r' % (c1,), where=where, facts=facts)
+    st = s1.stores
+    newsp = norm_bin('sub', 64, RSP0, size_t)
+    okc = len([x for x in st if x[1] == 8]) >= 1 and any(x[0] == ('addr', newsp, 0) and x[1] == 8 and x[2] == ('mem', 8, ('addr', RSP0, 0)) for x in st)
+    rep.ob(rule, '%s:%s:first-byte-moves-down-by-size' % (U, fnn), okc, 'the first pending byte is not copied from (%%rsp) to (%%rsp - rounded size): stores %r' % ([x[:3] for x in st][:3],), where=where, facts=facts)
+    ok_rsp = s0.reg['rsp'] == newsp
+    rep.ob(rule, '%s:%s:rsp-moves-by-rounded-size' % (U, fnn), ok_rsp, '%%rsp becomes %r, expected %%rsp - ((size + 15) & ~15)' % (s0.reg['rsp'],), where=where, facts=facts)
+    bs = [x for x in s0.stores if x[0] == ('addr', ('init', 'rbp'), '{aboff}')]
+    okb = len(bs) == 1 and bs[0][1] == 64 and bs[0][2] == norm_bin('sub', 64, BOT, size_t) and s0.reg['rax'] == bs[0][2]
+    rep.ob(rule, '%s:%s:bottom-moves-by-same-amount-and-is-returned' % (U, fnn), okb, 'the alloca bottom pointer is updated to %r and %%rax is %r; both must be bottom - rounded size (the address of the new block)' % ([x[2] for x in bs], s0.reg['rax']), where=where, facts=facts)
+
+
 def run(P, rep, tier):
     cg = wrap(CG(P))
     rep.explanation = ('Address/width/mask arithmetic of every lvalue form, decided as formulas: the code generator is abstractly interpreted on abstract nodes whose layout fields '
@@ -429,6 +487,8 @@ def run(P, rep, tier):
     r_addr(cg, rep)
     r_member_lookup(P, rep)
     r_frame(cg, P, rep)
+    rep.rule('R04.7', 'alloca: size rounded to 16, pending temporaries relocated byte for byte over the full count, %rsp and the bottom pointer move together, block address returned', floor=5)
+    r_alloca(cg, rep)
     from ..lib_types import r_pointer_scaling
     rep.rule('R04.10', 'element addresses: p+n / p[n] / p-n scale the index by the element size in 64-bit arithmetic (shared with R01.3)', floor=9)
     r_pointer_scaling(P, rep, 'R04.10')
